@@ -24,7 +24,8 @@ def gather(ctx, n_problems, depth, max_states, max_inst, knobs=None):
     for hp in sx.corpus_problems():          # hand-written corner cases run first
         exs.append(sx.explore_problem(len(exs), ctx.rng, depth, max_states, 40, {}, gen=hp))
     for i in range(n_problems):
-        exs.append(sx.explore_problem(len(exs), ctx.rng, depth, max_states, max_inst, knobs or {}))
+        exs.append(sx.explore_problem(len(exs), ctx.rng, depth, max_states, max_inst, knobs or {},
+                                      walk_len=(45 if i % 5 == 0 else 0)))
     return exs
 
 
